@@ -33,6 +33,7 @@ type c20Rec struct {
 	problems []string
 	acked    map[string]data.Point // identity -> newest acknowledged write
 	keys     map[string]string
+	refText  map[string]string // refused request -> the error text the store gave when it was sent alone
 }
 
 func (r *c20Rec) fail(key, msg string) {
@@ -67,6 +68,49 @@ func c20Find(ps data.Points, typ, key string) (data.Point, bool) {
 		}
 	}
 	return data.Point{}, false
+}
+
+type c20RefusedReq struct {
+	what string
+	send func(nc *nats.Conn) error
+}
+
+// c20Refused: requests the store must refuse (C05). A refusal must not disturb the clients that run next
+// to it, and the requester must get ITS error text (the one the store gives when the request is sent alone).
+func c20Refused() []c20RefusedReq {
+	return []c20RefusedReq{
+		{"new edge Q below N without node type", func(nc *nats.Conn) error {
+			return client.SendEdgePoints(nc, "Q", "N", data.Points{{Type: data.PointTypeTombstone, Value: 0, Time: c20ts(50), Origin: "x"}}, true)
+		}},
+		{"self edge on N", func(nc *nats.Conn) error {
+			return client.SendEdgePoints(nc, "N", "N", data.Points{{Type: data.PointTypeTombstone, Value: 0, Time: c20ts(51), Origin: "x"}, {Type: data.PointTypeNodeType, Text: "vtest"}}, true)
+		}},
+		{"NaN node point on N", func(nc *nats.Conn) error {
+			return client.SendNodePoints(nc, "N", data.Points{{Type: "nanv", Value: math.NaN(), Time: c20ts(52), Origin: "y"}}, true)
+		}},
+		{"NaN inside a node-point batch on N", func(nc *nats.Conn) error {
+			return client.SendNodePoints(nc, "N", data.Points{{Type: "ok", Value: 1, Time: c20ts(53), Origin: "y"}, {Type: "nanw", Value: math.NaN(), Time: c20ts(54), Origin: "y"}}, true)
+		}},
+	}
+}
+
+func c20Refuse(nc *nats.Conn, rec *c20Rec, tol bool, who string, reqs []c20RefusedReq) {
+	for _, q := range reqs {
+		err := q.send(nc)
+		if tol {
+			continue
+		}
+		switch {
+		case err == nil:
+			rec.fail("refused-request-accepted", who+": "+q.what+" was accepted")
+		case strings.Contains(err.Error(), "timeout") || strings.Contains(err.Error(), "no responders"):
+			rec.fail("request-failed/refused-write", who+": "+q.what+" was not answered: "+err.Error())
+		default:
+			if want, ok := rec.refText[q.what]; ok && err.Error() != want {
+				rec.fail("reply-belongs-to-another-request", fmt.Sprintf("%s: %s was answered %q; sent alone the same request is answered %q", who, q.what, err.Error(), want))
+			}
+		}
+	}
 }
 
 func c20Threads() []c20Thread {
@@ -169,31 +213,11 @@ func c20Threads() []c20Thread {
 			}
 			_ = m
 		}},
-		{"X refused writes (new edge without node type, self edge, NaN)", func(inst *sh.Inst, nc *nats.Conn, rec *c20Rec, tol bool) {
-			// requests the store must refuse (C05); a refusal must not disturb the clients that run next to it
-			reqs := []struct {
-				what string
-				send func() error
-			}{
-				{"new edge Q below N without node type", func() error {
-					return client.SendEdgePoints(nc, "Q", "N", data.Points{{Type: data.PointTypeTombstone, Value: 0, Time: c20ts(50), Origin: "x"}}, true)
-				}},
-				{"self edge on N", func() error {
-					return client.SendEdgePoints(nc, "N", "N", data.Points{{Type: data.PointTypeTombstone, Value: 0, Time: c20ts(51), Origin: "x"}, {Type: data.PointTypeNodeType, Text: "vtest"}}, true)
-				}},
-				{"NaN node point on N", func() error {
-					return client.SendNodePoints(nc, "N", data.Points{{Type: "nanv", Value: math.NaN(), Time: c20ts(52), Origin: "x"}}, true)
-				}},
-			}
-			for _, q := range reqs {
-				err := q.send()
-				if err == nil && !tol {
-					rec.fail("refused-request-accepted", "X: "+q.what+" was accepted")
-				}
-				if err != nil && (strings.Contains(err.Error(), "timeout") || strings.Contains(err.Error(), "no responders")) && !tol {
-					rec.fail("request-failed/refused-write", "X: "+q.what+" was not answered: "+err.Error())
-				}
-			}
+		{"X refused edge writes (new edge without node type, self edge)", func(inst *sh.Inst, nc *nats.Conn, rec *c20Rec, tol bool) {
+			c20Refuse(nc, rec, tol, "X", c20Refused()[:2])
+		}},
+		{"Y refused node writes (NaN values)", func(inst *sh.Inst, nc *nats.Conn, rec *c20Rec, tol bool) {
+			c20Refuse(nc, rec, tol, "Y", c20Refused()[2:])
 		}},
 	}
 }
@@ -225,7 +249,16 @@ func c20Body(t *testing.T, combos [][]int, withStop bool, bound int) mc.Body {
 			}
 			file := inst.File
 			root := inst.RootID
-			rec := &c20Rec{acked: map[string]data.Point{}}
+			rec := &c20Rec{acked: map[string]data.Point{}, refText: map[string]string{}}
+			// reference: what each must-be-refused request is answered when it is sent alone
+			_ = s.do(func() error {
+				for _, q := range c20Refused() {
+					if err := q.send(inst.Nc); err != nil {
+						rec.refText[q.what] = err.Error()
+					}
+				}
+				return nil
+			}, false)
 			var names []string
 			for _, ti := range combo {
 				names = append(names, strings.Fields(threads[ti].name)[0])
@@ -413,7 +446,7 @@ func TestC20(t *testing.T) {
 				Rule: "the triples {W1,W2,R}, {W1,W2,V}, {W1,R,V}, {W2,R,V}: all schedules with at most 3 preemptions; same oracles"},
 				c20Body(t, c20Triples(false)[:4], false, 3))
 		}
-		rule := "threads = concurrent clients of one real store: W1 node-point writer (write, read-own-write, write), W2 edge-point writer, R reader (monotonic reads), V admin.storeVerify, X a client whose requests must be refused (new edge without node type, self edge, NaN) next to W1 and W2 / R%s; all triples; scheduling points = every message delivery, every SQL operation and every writeLock.Lock in store/sqlite.go, and every reply leaving the store; all schedules with at most %d preemptions; oracles: every request answered (no deadlock), acknowledged writes visible, reads never go back, final content = newest acknowledged writes, hashes consistent, storeMaint has nothing to repair"
+		rule := "threads = concurrent clients of one real store: W1 node-point writer (write, read-own-write, write), W2 edge-point writer, R reader (monotonic reads), V admin.storeVerify, X and Y clients whose requests must be refused (X: new edge without node type, self edge; Y: NaN values) next to W1, W2 / R and next to each other (each must get its own error text)%s; all triples; scheduling points = every message delivery, every SQL operation and every writeLock.Lock in store/sqlite.go, and every reply leaving the store; all schedules with at most %d preemptions; oracles: every request answered (no deadlock), acknowledged writes visible, reads never go back, final content = newest acknowledged writes, hashes consistent, storeMaint has nothing to repair"
 		extra := ", M admin.storeMaint (with V and a writer / reader)"
 		if thorough() {
 			extra = ", M admin.storeMaint, more triples with M and X, and W1 W2 R V together"
@@ -540,9 +573,9 @@ func c20RacePart(r *mc.Report) {
 	r.Extra("race_pass", map[string]any{"iterations": res.Iterations, "threads_per_iteration": res.Threads, "wall_s": res.WallS, "kind": "sampling"})
 }
 
-// c20Triples: thread sets (indices into c20Threads: W1 W2 R V M X); the thorough list extends the quick one.
+// c20Triples: thread sets (indices into c20Threads: W1 W2 R V M X Y); the thorough list extends the quick one.
 func c20Triples(thorough bool) [][]int {
-	ts := [][]int{{0, 1, 2}, {0, 1, 3}, {0, 2, 3}, {1, 2, 3}, {0, 3, 4}, {2, 3, 4}, {0, 1, 5}, {0, 2, 5}}
+	ts := [][]int{{0, 1, 2}, {0, 1, 3}, {0, 2, 3}, {1, 2, 3}, {0, 3, 4}, {2, 3, 4}, {0, 1, 5}, {0, 2, 5}, {0, 5, 6}}
 	if thorough {
 		ts = append(ts, []int{0, 1, 4}, []int{0, 2, 4}, []int{1, 3, 4}, []int{1, 2, 5}, []int{0, 1, 2, 3})
 	}
